@@ -62,6 +62,9 @@ class HandlerModel:
             spec = {}
             for i, k in enumerate(kinds):
                 spec[i] = OPKIND_SPEC.get(k, ("E",))
+                # `SHL r/m, 1` style forms: the decoder reports the implied constant 1
+                if i < len(oc["kinds"]) and oc["kinds"][i] == "imm8_const_1":
+                    spec[i] = ("IC", 1, 1)
             out.append((label, kinds, spec))
         return out
 
